@@ -7,6 +7,15 @@ Space (every member is visited, nothing sampled)
             configurations: letters a,b / a; keyword+synonym configuration WORD / IF / '+'.
   split   : directed family "shared leading part in alternatives that are not adjacent"
             (models.grammar.family_split): roll-back between alternatives with children already collected.
+  seq     : directed family "sequence under roll-back" (models.grammar.family_seq): a ProdSequence symbol
+            over 1-2 terminals or a non-terminal, 2-3 alternatives of E mixing it with leading / trailing
+            terminals.  A sequence node carries its matched elements as a list; they are its children.
+  blank   : sized space over the terminals a, SPACE x the constructor option skip_tokens in
+            {None, set(), [], (), {SPACE}, {COMMENT}, [SPACE, COMMENT]}; tokenizer with SPACE and COMMENT
+            groups, blanks and comments written explicitly into the texts.  The leaves must be the tokens
+            that are not skipped as configured (an explicit empty collection skips nothing).
+  diverge : directed family "three alternatives with one first symbol, non-monotone divergence"
+            (models.grammar.family_diverge), all six orders.
   prefix  : directed family for factorization (models.grammar.family_prefix): common prefixes of length
             1-3 starting with a terminal or a non-terminal, 2-7 remainders (crossing the "more than 5
             alternatives" rule of smart factorization), nested common prefixes, nullable remainders.
@@ -57,30 +66,57 @@ REQUIRED_FEATURES = ["grammar:nullable", "grammar:ambiguous-table", "grammar:com
                      "parse:tree", "parse:ParsingError", "parse:rollback", "parse:through-suffix-symbol",
                      "tree:empty-production-node", "mode:smart", "mode:full",
                      "start-override:returned-tree", "start-override:ParsingError",
-                     "start-override:nullable-by-chain-at-end"]
+                     "start-override:nullable-by-chain-at-end",
+                     "grammar:sequence-symbol", "sequence:tree-after-rollback",
+                     "sequence:re-entered-inside-earlier-span-after-rollback",
+                     "config:skip_tokens-empty", "config:skip_tokens-None", "config:skip_tokens-SPACE",
+                     "config:skip_tokens-empty:tree-with-blank-or-comment-leaf",
+                     "grammar:non-monotone-divergence-in-a-group"]
 
 _SPACES = {
     # (kind, non-terminals, cfg key, max_alts, max_len, max_size, input length, shards)
     "quick": [("sized", "EA", "ab", 2, 2, 5, 4, 32), ("sized", "EAB", "a", 2, 2, 5, 4, 32),
               ("sized", "EA", "kw", 2, 2, 4, 3, 16), ("prefix", "EA", "ab", 0, 0, 0, 4, 48),
-              ("split", "EA", "ab", 0, 0, 0, 4, 8)],
+              ("split", "EA", "ab", 0, 0, 0, 4, 8), ("seq", "EWA", "wvxy", 0, 0, 0, 3, 24),
+              ("blank", "EA", "blank", 2, 2, 4, 3, 16), ("diverge", "EA", "pabcdxy", 0, 0, 0, 3, 8)],
     "thorough": [("sized", "EA", "ab", 3, 3, 6, 5, 64), ("sized", "EA", "ab", 3, 3, 7, 4, 200),
                  ("sized", "EAB", "a", 2, 3, 6, 5, 64), ("sized", "EAB", "ab", 2, 2, 5, 4, 48),
                  ("sized", "EA", "kw", 2, 2, 5, 3, 48), ("prefix", "EA", "ab", 0, 0, 0, 5, 64),
-                 ("split", "EA", "ab", 0, 0, 0, 5, 16)],
+                 ("split", "EA", "ab", 0, 0, 0, 5, 16), ("seq", "EWA", "wvxy", 0, 0, 0, 5, 48),
+                 ("blank", "EA", "blank", 2, 2, 5, 5, 48), ("diverge", "EA", "pabcdxy", 0, 0, 0, 4, 24)],
 }
 # the prefix family is enumerated completely in both tiers; the tiers differ in its input length only
 
 
 def _cfg(key):
-    return G.kw_cfg() if key == "kw" else G.letters_cfg(key)
+    return G.cfg_from_key(key)
+
+
+def _skip_options(tier):
+    """quick: None, the three empty collections, {SPACE}; thorough: all of models.grammar.SKIP_OPTIONS."""
+    return G.SKIP_OPTIONS if tier == "thorough" else G.SKIP_OPTIONS[:5]
 
 
 def bounds(tier):
     out = []
     for kind, nts, key, ma, ml, ms, L, _ in _SPACES[tier]:
         cfg = _cfg(key)
-        if kind == "sized":
+        if kind == "seq":
+            out.append({"space": "sequence-under-roll-back family (ProdSequence symbols)",
+                        "grammars": sum(1 for _ in G.family_seq(cfg.terms)), "input_len_max": L,
+                        "inputs_per_mode": len(G.all_inputs(cfg, L))})
+        elif kind == "diverge":
+            out.append({"space": "non-monotone-divergence family (three alternatives, one first symbol)",
+                        "grammars": sum(1 for _ in G.family_diverge(cfg.terms)), "input_len_max": L,
+                        "inputs_per_mode": len(G.all_inputs(cfg, L))})
+        elif kind == "blank":
+            out.append({"space": "sized x constructor option skip_tokens", "non_terminals": list(nts),
+                        "terminals": list(cfg.terms), "tokenizer_groups": ["SPACE", "COMMENT", "a"],
+                        "skip_tokens_values": [repr(G.skip_value(o)) for o in _skip_options(tier)],
+                        "max_alternatives": ma, "max_alt_len": ml, "max_total_size": ms,
+                        "grammars": G.count_sized(len(nts), 2, ma, ml, ms),
+                        "input_len_max": L, "inputs_per_mode": len(G.all_inputs(cfg, L))})
+        elif kind == "sized":
             out.append({"space": "sized", "non_terminals": list(nts), "terminals": list(cfg.terms),
                         "max_alternatives": ma, "max_alt_len": ml, "max_total_size": ms,
                         "grammars": G.count_sized(len(nts), len(cfg.terms), ma, ml, ms),
@@ -103,13 +139,26 @@ def shards(tier):
 
 
 # ------------------------------------------------------------------------------------ one case
-def check_grammar(cfg, start, prods, inputs, acc, modes=(True, False), overrides=(), only_start=False):
+_ABSENT = "absent"      # the constructor argument skip_tokens is not given at all
+
+
+def check_grammar(cfg, start, prods, inputs, acc, modes=(True, False), overrides=(), only_start=False,
+                  skip=_ABSENT):
     """One case.  ``overrides``: non-terminals additionally handed to parse as ``start_symbol_name``
     (every input again); ``only_start``: replay of one recorded parse (no default-start loop when the
-    recorded parse used an override)."""
-    pm = dict(prods)
+    recorded parse used an override); ``skip``: value of the constructor argument skip_tokens (a member of
+    models.grammar.SKIP_OPTIONS) -- the leaves must be the tokens that are not skipped *as configured*."""
+    pm, seqs = G.expand(prods)
     terms = set(cfg.terms)
     feats = set()
+    if seqs:
+        feats.add("grammar:sequence-symbol")
+    skipped = cfg.effective_skip(None if skip == _ABSENT else skip)
+    if skip != _ABSENT:
+        feats.add("config:skip_tokens-" + ("None" if skip is None else
+                                           ("empty-" + skip[0] if not skip[1] else "+".join(skip[1]))))
+        if skip is not None and not skip[1]:
+            feats.add("config:skip_tokens-empty")
     if G.nullables(pm):
         feats.add("grammar:nullable")
     if cfg.key == "kw":
@@ -125,7 +174,8 @@ def check_grammar(cfg, start, prods, inputs, acc, modes=(True, False), overrides
         mode = "smart" if smart else "full"
         with H.Watchdog():
             try:
-                res, p = H.build(cfg, start, prods, smart)
+                res, p = (H.build(cfg, start, prods, smart) if skip == _ABSENT
+                          else H.build(cfg, start, prods, smart, skip=skip))
             except H.Abort:
                 res, p = "abort:watchdog", None
             acc.trans()
@@ -176,9 +226,20 @@ def check_grammar(cfg, start, prods, inputs, acc, modes=(True, False), overrides
                     if mon.suffix_pushes:
                         feats.add("parse:through-suffix-symbol")
                         nontrivial = True
-                    bad = G.validate_tree(root, pm, terms, root_symbol, toks)
+                    expected = toks if not skipped else tuple(t for t in toks if t[0] not in skipped)
+                    bad = G.validate_tree(root, pm, terms, root_symbol, expected, seqs)
                     shape = None
                     try:
+                        if seqs and mon.rollbacks:
+                            feats.add("sequence:tree-after-rollback")
+                            if mon.sequence_reentered_after_rollback():
+                                feats.add("sequence:re-entered-inside-earlier-span-after-rollback")
+                                nontrivial = True
+                        if skip != _ABSENT and len(expected) == len(toks) and any(t[0] == "SPACE" for t in toks):
+                            feats.add("config:blank-token-among-the-leaves")
+                        if skip != _ABSENT and skip is not None and not skip[1] and len(toks) > len(
+                                [t for t in toks if t[0] not in cfg.default_skip]):
+                            feats.add("config:skip_tokens-empty:tree-with-blank-or-comment-leaf")
                         shape = G.tree_shape(root)
                         if G.count_empty_nodes(shape):
                             feats.add("tree:empty-production-node")
@@ -191,16 +252,21 @@ def check_grammar(cfg, start, prods, inputs, acc, modes=(True, False), overrides
                         case = G.to_case(cfg, start, prods, smart=smart, input=[list(t) for t in toks])
                         sig = "C01:" + bad[0]
                         how = ""
+                        if skip != _ABSENT:
+                            case["skip"] = skip
+                            how = f" [skip_tokens={G.skip_value(skip)!r}]"
+                            if bad[0] == "leaves-differ-from-tokens":
+                                sig += ":skip_tokens-option"
                         if pstart is not None:
                             case["parse_start"] = pstart
                             sig += ":start-override"
-                            how = f", start_symbol_name={pstart!r}"
+                            how += f", start_symbol_name={pstart!r}"
                         acc.violation(sig, case,
                                       f"parse({cfg.text(toks)!r}{how}) returned a tree that is not a derivation "
                                       f"from {root_symbol} in the user grammar {G.show(prods)} "
                                       f"(smart_factorization={smart}): {bad[1]}",
                                       repr(shape), f"a derivation tree rooted at {root_symbol} whose leaves are "
-                                      + repr([list(t) for t in toks]))
+                                      + repr([list(t) for t in expected]))
             verdicts[smart] = "".join(verdict)
     if len(pmaps) == 2 and pmaps[True] != pmaps[False]:
         feats.add("grammar:modes-differ-in-productions")
@@ -226,6 +292,13 @@ def _grammars(tier, shard):
     cfg = _cfg(key)
     if kind == "sized":
         gen = G.enum_sized(tuple(nts), cfg.terms, ma, ml, ms, (k, K))
+    elif kind == "blank":
+        # grammar terminals: the letter and SPACE (COMMENT only occurs in texts)
+        gen = G.enum_sized(tuple(nts), ("a", "SPACE"), ma, ml, ms, (k, K))
+    elif kind == "seq":
+        gen = (g for j, g in enumerate(G.family_seq(cfg.terms, tuple(nts))) if j % K == k)
+    elif kind == "diverge":
+        gen = (g for j, g in enumerate(G.family_diverge(cfg.terms, tuple(nts))) if j % K == k)
     elif kind == "split":
         gen = (g for j, g in enumerate(G.family_split(cfg.terms, tuple(nts))) if j % K == k)
     else:
@@ -239,10 +312,15 @@ def run_shard(shard, tier, seed, acc):
     sp = _SPACES[tier][shard[0]]
     fam = "space:" + sp[0] + ":" + str(sp[2])
     overrides = tuple(sp[1]) if sp[0] in _OVERRIDE_KINDS else ()
+    skips = _skip_options(tier) if sp[0] == "blank" else (_ABSENT,)
     n = 0
     for prods in gen:
-        feats, nt, out, n_valid = check_grammar(cfg, "E", prods, inputs, acc, overrides=overrides)
-        acc.case(nontrivial=nt, features=feats + [fam], outcome=out, traces=n_valid)
+        for skip in skips:
+            feats, nt, out, n_valid = check_grammar(cfg, "E", prods, inputs, acc, overrides=overrides,
+                                                    skip=skip)
+            if sp[0] == "diverge" and G.non_monotone_divergence(dict(prods)):
+                feats.append("grammar:non-monotone-divergence-in-a-group")
+            acc.case(nontrivial=nt, features=feats + [fam], outcome=out, traces=n_valid)
         n += 1
         if nt and n % 211 == 0:
             acc.sample(G.show(prods))
@@ -255,7 +333,8 @@ def replay(case, acc):
     inputs = [tuple(tuple(t) for t in case["input"])]
     ps = case.get("parse_start")
     feats, nt, out, n_valid = check_grammar(cfg, start, prods, inputs, acc, modes=(case["smart"],),
-                                            overrides=(ps,) if ps else (), only_start=bool(ps))
+                                            overrides=(ps,) if ps else (), only_start=bool(ps),
+                                            skip=case.get("skip", _ABSENT) if "skip" in case else _ABSENT)
     acc.case(nontrivial=nt, features=feats, outcome=out, traces=n_valid)
 
 
